@@ -697,6 +697,50 @@ def exi2_consumers(ctx: Ctx) -> None:
 
 
 # --------------------------------------------------------------------- JOIN-1
+def _resolve_candidates(fn: ast.AST, e: ast.AST, depth: int = 0) -> List[ast.AST]:
+    """what a local expression may evaluate to, through single-name assignments, tuple literals indexed by a constant,
+    and attribute reads (None constants are dropped: they cannot be subscripted / carry no manager)"""
+    import copy
+    if depth > 6:
+        return [e]
+    if isinstance(e, ast.Name):
+        vals = []
+        for a in ast.walk(fn):
+            if isinstance(a, ast.Assign) and len(a.targets) == 1 and isinstance(a.targets[0], ast.Name) and a.targets[0].id == e.id:
+                vals.append(a.value)
+            elif isinstance(a, ast.AnnAssign) and isinstance(a.target, ast.Name) and a.target.id == e.id and a.value is not None:
+                vals.append(a.value)
+            elif isinstance(a, ast.Assign) and len(a.targets) == 1 and isinstance(a.targets[0], ast.Tuple) and isinstance(a.value, ast.Tuple) and len(a.value.elts) == len(a.targets[0].elts):
+                for tg, v in zip(a.targets[0].elts, a.value.elts):
+                    if isinstance(tg, ast.Name) and tg.id == e.id:
+                        vals.append(v)
+            elif isinstance(a, ast.Assign) and len(a.targets) == 1 and isinstance(a.targets[0], ast.Tuple):
+                for i, tg in enumerate(a.targets[0].elts):
+                    if isinstance(tg, ast.Name) and tg.id == e.id:
+                        vals.append(ast.Subscript(value=a.value, slice=ast.Constant(value=i), ctx=ast.Load()))
+        if not vals:
+            return [e]
+        out: List[ast.AST] = []
+        for v in vals:
+            if isinstance(v, ast.Constant) and v.value is None:
+                continue
+            out += _resolve_candidates(fn, v, depth + 1)
+        return out
+    if isinstance(e, ast.Subscript) and isinstance(e.slice, ast.Constant) and isinstance(e.slice.value, int):
+        out = []
+        for c in _resolve_candidates(fn, e.value, depth + 1):
+            if isinstance(c, ast.Tuple) and -len(c.elts) <= e.slice.value < len(c.elts):
+                out += _resolve_candidates(fn, c.elts[e.slice.value], depth + 1)
+            else:
+                out.append(ast.Subscript(value=c, slice=e.slice, ctx=ast.Load()))
+        return out
+    if isinstance(e, ast.Subscript):
+        return [ast.Subscript(value=c, slice=e.slice, ctx=ast.Load()) for c in _resolve_candidates(fn, e.value, depth + 1)]
+    if isinstance(e, ast.Attribute):
+        return [ast.Attribute(value=c, attr=e.attr, ctx=ast.Load()) for c in _resolve_candidates(fn, e.value, depth + 1)]
+    return [e]
+
+
 def join1(ctx: Ctx) -> None:
     mod = ctx.P.mod("_lowlevel")
     fn = mod.fn("_contexts_active_by_trickery")
@@ -726,23 +770,58 @@ def join1(ctx: Ctx) -> None:
     else:
         ctx.R.fail("JOIN-1", mod, wb, "active with-blocks must be frame_details.blocks in their given (outermost-first) order, filtered by `handler in with_block_info`")
     ret = src.get("ret")
-    if ret is None or not isinstance(ret.value, ast.ListComp):
-        raise AnalysisError("JOIN-1: ret list comprehension vanished (the join was restructured; ALIAS-1 / EXI-1 still apply)")
-    lc = ret.value
-    gen = lc.generators[0]
-    t = norm(gen.target)
-    ok = norm(gen.iter) == "with_blocks" and not gen.ifs and isinstance(lc.elt, ast.Call) and norm(lc.elt.func) == "replace" \
-        and norm(lc.elt.args[0]) == f"with_block_info[{t}.handler]"
-    objkw = [k for k in lc.elt.keywords if k.arg == "obj"] if isinstance(lc.elt, ast.Call) else []
-    ok = ok and len(objkw) == 1 and norm(objkw[0].value) == f"frame_details.stack[{t}.level - 1].__self__"
-    if ok:
-        ctx.R.ok("JOIN-1", "ret = [replace(with_block_info[b.handler], obj=stack[b.level - 1].__self__) for b in with_blocks]")
+    loop_form = None
+    if ret is not None and isinstance(ret.value, ast.ListComp):
+        lc = ret.value
+        gen = lc.generators[0]
+        t = norm(gen.target)
+        ok = norm(gen.iter) == "with_blocks" and not gen.ifs and isinstance(lc.elt, ast.Call) and norm(lc.elt.func) == "replace" \
+            and norm(lc.elt.args[0]) == f"with_block_info[{t}.handler]"
+        objkw = [k for k in lc.elt.keywords if k.arg == "obj"] if isinstance(lc.elt, ast.Call) else []
+        ok = ok and len(objkw) == 1 and norm(objkw[0].value) == f"frame_details.stack[{t}.level - 1].__self__"
+        if ok:
+            ctx.R.ok("JOIN-1", "ret = [replace(with_block_info[b.handler], obj=stack[b.level - 1].__self__) for b in with_blocks]")
+        else:
+            ctx.R.fail("JOIN-1", mod, ret, "each active block must yield with_block_info[handler] with obj = stack[level - 1].__self__ (the bound __exit__ one below the handler's depth)")
     else:
-        ctx.R.fail("JOIN-1", mod, ret, "each active block must yield with_block_info[handler] with obj = stack[level - 1].__self__ (the bound __exit__ one below the handler's depth)")
+        # loop form: for b in with_blocks: ... ret.append(replace(with_block_info[b.handler], obj=X))
+        loops = [l for l in fn.body if isinstance(l, ast.For) and norm(l.iter) == "with_blocks" and isinstance(l.target, ast.Name)]
+        if len(loops) != 1:
+            raise AnalysisError("JOIN-1: neither the ret list comprehension nor a loop over with_blocks found (the join was restructured; ALIAS-1 / EXI-1 still apply)")
+        loop_form = loops[0]
+        t = loop_form.target.id
+        apps = [c for c in ast.walk(loop_form) if isinstance(c, ast.Call) and norm(c.func) == "ret.append" and c.args and isinstance(c.args[0], ast.Call) and norm(c.args[0].func) == "replace"]
+        if len(apps) != 1:
+            raise AnalysisError("JOIN-1: the loop over with_blocks does not append exactly one replace(...) per block")
+        rp = apps[0].args[0]
+        objkw = [k for k in rp.keywords if k.arg == "obj"]
+        want = f"frame_details.stack[{t}.level - 1].__self__"
+        cands = [norm(c) for c in _resolve_candidates(loop_form, objkw[0].value)] if objkw else []
+        if norm(rp.args[0]) == f"with_block_info[{t}.handler]" and cands and all(c == want for c in cands):
+            ctx.R.ok("JOIN-1", f"for {t} in with_blocks: ret.append(replace(with_block_info[{t}.handler], obj=stack[{t}.level - 1].__self__))")
+        elif norm(rp.args[0]) == f"with_block_info[{t}.handler]" and cands and any(c == want for c in cands):
+            ctx.R.undecided("JOIN-1", f"obj of an active block may be any of {cands}")
+        else:
+            ctx.R.fail("JOIN-1", mod, apps[0], "each active block must yield with_block_info[handler] with obj = stack[level - 1].__self__ (the bound __exit__ one below the handler's depth)")
+    # NAME-1: the manager is identified by its position on the value stack, never by the *name* of the method found there
+    scope = loop_form if loop_form is not None else fn
+    for n in ast.walk(scope):
+        isname = (isinstance(n, ast.Attribute) and n.attr == "__name__") or \
+                 (isinstance(n, ast.Call) and norm(n.func) == "getattr" and len(n.args) >= 2 and isinstance(n.args[1], ast.Constant) and n.args[1].value == "__name__")
+        if not isname:
+            continue
+        if any(isinstance(a, (ast.Raise, ast.JoinedStr)) or (isinstance(a, ast.Call) and norm(a.func).startswith("warnings.")) for a in mod.ancestors(n)):
+            continue  # diagnostics only
+        ctx.R.fail("NAME-1", mod, n, "the trickery path reads the __name__ of what it finds on the value stack: a bound method's __name__ is the name of its function, not of the attribute it was "
+                   "looked up as, so a manager whose exit method is an alias (`__exit__ = close`, `__aexit__ = aclose`) or an unwrapped decorator is rejected or dropped", construct="exit method identified by __name__")
+        break
+    else:
+        ctx.R.ok("NAME-1", "the trickery path identifies managers by stack position only (no __name__ test)")
     # exiting entry
     found = False
     for n in ast.walk(fn):
-        if isinstance(n, ast.Call) and norm(n.func) == "ret.append" and isinstance(n.args[0], ast.Call) and norm(n.args[0].func) == "replace":
+        if isinstance(n, ast.Call) and norm(n.func) == "ret.append" and isinstance(n.args[0], ast.Call) and norm(n.args[0].func) == "replace" \
+                and ("exiting" in norm(n.args[0].args[0]) or any(k.arg == "is_exiting" for k in n.args[0].keywords)):
             found = True
             inner = n.args[0]
             if norm(inner.args[0]) == "with_block_info[exiting.cleanup_offset]":
